@@ -13,6 +13,13 @@ Nothing here parses Liquid text.  A program is ``{name: items}``; an item is a J
     ["case", var, value, body]           {% case var %}{% when 'value' %}body{% endcase %}
     ["with", name, var, body]            {% with name: var %}body{% endwith %}
     ["c", text]                          {# text #}   (renders nothing)
+    ["cap", name, body]                  {% capture name %}body{% endcapture %}  (blocks inside
+                                         take part in the chain; print with ["v", name])
+    ["mac", name, body] / ["call", name] {% macro name %}body{% endmacro %} / {% call name %}
+    ["com", body] / ["hcom", body]       {% comment %}body{% endcomment %} / {# body #}: markup
+                                         inside is NOT template markup (no definitions)
+    ["raw", body]                        {% raw %}body{% endraw %}: body is literal text
+    a "b" item with a 6th element "liquid" is emitted in {% liquid %} line form
     ["as", name, value]                  {% assign name = 'value' %}
     ["inc", kind, target, kwargs]        {% include|render 'target'[, k: var ...] %}
                                          (target "@var" = {% include var %}, name from scope)
@@ -104,7 +111,7 @@ def body_index(it: list) -> int | None:
     """Index of the nested item list of a container item (None for leaves)."""
     if it[0] == "b" or it[0] in BODY3:
         return 3
-    if it[0] == "if":
+    if it[0] in ("if", "cap", "mac"):
         return 2
     return None
 
@@ -118,7 +125,7 @@ def walk(items: list) -> Any:
         k = it[0]
         if k == "b":
             stack.extend((c, it[1]) for c in reversed(it[3]))
-        elif k == "if":
+        elif k in ("if", "cap", "mac"):
             stack.extend((c, encl) for c in reversed(it[2]))
         elif k in BODY3:
             stack.extend((c, encl) for c in reversed(it[3]))
@@ -176,6 +183,7 @@ class Ref:
         # variable is HTML-escaped exactly once, however many block.super levels the
         # text passes through afterwards
         self.escape = escape
+        self.macros: dict[str, tuple] = {}
         self.o = Outcome()
         self.budget = 200_000
 
@@ -294,8 +302,24 @@ class Ref:
                     self._items(it[3], e, cur, owner, scope, out)
                 finally:
                     scope.pop()
-            elif k == "c":
+            elif k in ("c", "com", "hcom"):
                 pass
+            elif k == "raw":
+                out.append(emit_items(it[1]))
+            elif k == "cap":
+                sub: list[str] = []
+                self._items(it[2], e, cur, owner, scope, sub)
+                scope[1][it[1]] = "".join(sub)
+            elif k == "mac":
+                self.macros[it[1]] = (it[2], e, owner)
+            elif k == "call":
+                m = self.macros.get(it[1])
+                if m is not None:
+                    if any(x[0] == "b" for x, _ in walk(m[0])):
+                        # the engine forbids block inside a called macro; the statement
+                        # does not speak about it: not judged
+                        raise RefError("block-in-called-macro", it[1])
+                    self._items(m[0], m[1], None, m[2], [self.data, {}], out)
             elif k == "forin":
                 seq = self._lookup(scope, it[2])
                 for v in seq if isinstance(seq, list) else []:
@@ -404,7 +428,7 @@ def rename(prog: Program, entry: str, data: dict, mapping: dict[str, str]) -> tu
                 it[2] = mapping.get(it[2], it[2])
             elif k == "b" or k in BODY3:
                 it[3] = items_(it[3])
-            elif k == "if":
+            elif k in ("if", "cap", "mac"):
                 it[2] = items_(it[2])
             out.append(it)
         return out
@@ -447,6 +471,12 @@ def emit_items(items: list) -> str:
             parts.append("{{ %s }}" % it[1])
         elif k == "s":
             parts.append("{{ block.super }}")
+        elif k == "b" and len(it) > 5 and it[5] == "liquid":
+            lines = ["block %s%s" % (it[1], " required" if it[2] else "")]
+            for c in it[3]:
+                lines.append("echo block.super" if c[0] == "s" else "echo '%s'" % c[1])
+            lines.append("endblock")
+            parts.append("{%% liquid\n%s\n%%}" % "\n".join(lines))
         elif k == "b":
             req = " required" if it[2] else ""
             end = f" {it[4]}" if it[4] is not None else ""
@@ -473,6 +503,18 @@ def emit_items(items: list) -> str:
             parts.append("{%% with %s: %s %%}%s{%% endwith %%}" % (it[1], it[2], emit_items(it[3])))
         elif k == "c":
             parts.append("{# %s #}" % it[1])
+        elif k == "cap":
+            parts.append("{%% capture %s %%}%s{%% endcapture %%}" % (it[1], emit_items(it[2])))
+        elif k == "mac":
+            parts.append("{%% macro %s %%}%s{%% endmacro %%}" % (it[1], emit_items(it[2])))
+        elif k == "call":
+            parts.append("{%% call %s %%}" % it[1])
+        elif k == "com":
+            parts.append("{%% comment %%}%s{%% endcomment %%}" % emit_items(it[1]))
+        elif k == "hcom":
+            parts.append("{## %s ##}" % emit_items(it[1]))
+        elif k == "raw":
+            parts.append("{%% raw %%}%s{%% endraw %%}" % emit_items(it[1]))
         elif k == "as":
             parts.append("{%% assign %s = '%s' %%}" % (it[1], it[2]))
         elif k == "inc":
